@@ -13,6 +13,10 @@
     action.classify <text-hex>                -> <token class>
     action.numval <text-hex>                  -> <token class> [<bits of the value | ->]   (`parse_right`)
     action.dequote <text-hex>                 -> <text-hex> | err
+    action.fmtdouble <bits>                   -> <text-hex> | none          (`format_double`; none = not finite / outside `int`)
+    action.fmtrt <bits>                       -> <class> <bits> | none      (`format_double`, then `get_type` + `strtod` of the text)
+    action.rsttok <lhs-hex> <wg-hex|-> <cmp 1..6> <N:q-hex:wg-hex|- or V:bits> <lp> <rp> <logic 0|1|2>
+                                              -> <token-hex,…> | none       (`RstAction::Condition::tokens()`)
     action.glob <pattern-hex> <name-hex>      -> 0 | 1
     action.sim <ev>*                          -> <name>.<id>@<t>,… | -  ;  <name>.<id>=<count>:<last> …
        ev:  D:<name-hex>:<max_run>:<min_wait>:<start>   (`Actions::add`)
@@ -21,6 +25,7 @@
 -/
 import OpmVerif.Model.Action
 import OpmVerif.Model.ActionTok
+import OpmVerif.Model.ActionFmt
 -- driver: prefix=action handler=OpmVerif.Act.handle
 
 namespace OpmVerif.Act
@@ -304,6 +309,44 @@ def handle (op : String) (args : List String) : String :=
          | .expr => "expr" | .lp => "lp" | .rp => "rp" | .and => "and" | .or => "or"
          | .cmp o => "cmp" ++ toString (opCode o))
       | none => "bad-op"
+    | _ => "bad-op"
+  | "action.fmtdouble" =>
+    match args with
+    | [b] =>
+      match hexNat b with
+      | some bits => (match fmtDouble bits with | some r => strHex (String.ofList r) | none => "none")
+      | none => "bad-op"
+    | _ => "bad-op"
+  | "action.fmtrt" =>
+    match args with
+    | [b] =>
+      match hexNat b with
+      | some bits =>
+        (match fmtDouble bits with
+         | some r =>
+           (match classify r with
+            | .number => "number " ++ (match numBits r with | some v => natHex16 v | none => "-")
+            | _ => "notnumber")
+         | none => "none")
+      | none => "bad-op"
+    | _ => "bad-op"
+  | "action.rsttok" =>
+    match args with
+    | [l, lw, o, r, lp, rp, lg] =>
+      let op? : Option CmpOp := match o with
+        | "1" => some .gt | "2" => some .lt | "3" => some .ge | "4" => some .le | "5" => some .eq | "6" => some .ne
+        | _ => none
+      let optS (h : String) : Option (Option String) := if h = "-" then some none else if h = "e" then some (some "") else (hexStr h).map some
+      let rhs? : Option RstQ := match r.splitOn ":" with
+        | ["N", q, w] => (match hexStr q, optS w with | some qq, some ww => some (.name qq ww) | _, _ => none)
+        | ["V", b] => (hexNat b).map .value
+        | _ => none
+      match hexStr l, optS lw, op?, rhs?, lg.toNat? with
+      | some lhs, some lhsWg, some op, some rhs, some logic =>
+        (match rstTokens { lhs := lhs, lhsWg := lhsWg, op := op, rhs := rhs, lp := lp = "1", rp := rp = "1", logic := logic } with
+         | some ts => String.intercalate "," (ts.map strHex)
+         | none => "none")
+      | _, _, _, _, _ => "bad-op"
     | _ => "bad-op"
   | "action.dequote" =>
     match args with
